@@ -48,7 +48,8 @@ def bottleneck(dgm1, dgm2, matching=False):
     """
 
     return_matching = matching
-    S = np.array(dgm1)
+    # float64 throughout: unsigned / narrow integer diagrams would wrap in the coordinate differences below
+    S = np.array(dgm1, dtype=np.float64)
     M = min(S.shape[0], S.size)
     if S.size > 0:
         S = S[np.isfinite(S[:, 1]), :]
@@ -57,7 +58,7 @@ def bottleneck(dgm1, dgm2, matching=False):
                 "dgm1 has points with non-finite death times;" + "ignoring those points"
             )
             M = S.shape[0]
-    T = np.array(dgm2)
+    T = np.array(dgm2, dtype=np.float64)
     N = min(T.shape[0], T.size)
     if T.size > 0:
         T = T[np.isfinite(T[:, 1]), :]
